@@ -110,7 +110,8 @@ def _run(doc, events, fail_at, source_kind, name_async, choices, stop_after, pul
                     break
                 responses += 1
             r, exc = sched.drive(stream.aclose())
-            if exc is not None:
+            if exc is not None and not (source_kind == 3 and isinstance(exc, Boom)):
+                # (passing a failure of the source's own aclose() on to the consumer would be a release, too)
                 return (False, "aclose() of the response stream raised")
             if pull_after_close:
                 r, exc = sched.drive(stream.__anext__())
